@@ -26,6 +26,22 @@ var rawModelOps = map[string]bool{
 	"UndoChange": true, "SetManagementActionUnobserved": true, "AcceptChange": true, "RevertChange": true,
 }
 
+// Whole-set operations of a model (they rebuild or overwrite the action set).  Called while a proposal is pending they
+// break conformance just as a second proposal would (the pending commands are overwritten, a later RevertChange flips
+// the wrong flag).  Fact regenerated here: in the single-objective explorer's package they are called on the model from
+// the reviewed sites only (Explorer.Initialise), and none of them is reachable from Explorer.TryRandomChange -- the
+// window between the proposal and its accept/revert.
+var wholeSetModelOps = map[string]bool{
+	"SetManagementAction": true, "SynchroniseTo": true, "Randomize": true, "Initialise": true,
+	"InitialiseActions": true, "RandomlyInitialiseActions": true, "SetManagementActionUnobserved": true,
+}
+
+// reviewed whole-set call sites in package kirkpatrick: "<file>|<enclosing function>|<callee>|<receiver text>"
+var reviewedWholeSetCalls = map[string]string{
+	"Explorer.go|Initialise|Initialise|ke.Model()": "Explorer.Initialise: before any proposal of the run",
+	"Explorer.go|Initialise|Randomize|ke.Model()":  "Explorer.Initialise: before any proposal of the run",
+}
+
 // reviewed call sites: "<relative file>|<enclosing function>|<callee>|<receiver text>"
 var reviewedRawCalls = map[string]string{
 	"internal/pkg/annealing/annealers/SimpleAnnealer.go|Anneal|TryRandomChange|sa.SolutionExplorer()":    "explorer-level call (Explorer.TryRandomChange), not a model operation",
@@ -231,6 +247,99 @@ func suiteConformanceFacts(c *Ctx) {
 	} else {
 		check("decide-exactly-once", false, "AcceptOrRevertChange not found")
 	}
+	// ---- whole-set operations: reviewed sites only, and none inside the proposal window
+	kirkDir := filepath.Join(repo, "internal/pkg/annealing/explorer/kirkpatrick")
+	entries, _ := os.ReadDir(kirkDir)
+	wholeFound := map[string]bool{}
+	calls := map[string][]string{}     // function -> methods of the explorer it calls (ke.<name>(...) and method values ke.<name>)
+	wholeIn := map[string][]string{}   // function -> whole-set operations it calls on something that is a model
+	for _, e := range entries {
+		name := e.Name()
+		if e.IsDir() || !strings.HasSuffix(name, ".go") || strings.HasSuffix(name, "_test.go") || strings.Contains(name, "verif_access") {
+			continue
+		}
+		src, err := os.ReadFile(filepath.Join(kirkDir, name))
+		if err != nil {
+			continue
+		}
+		f, err := parser.ParseFile(fset, filepath.Join(kirkDir, name), src, 0)
+		if err != nil {
+			continue // reported above
+		}
+		for _, d := range f.Decls {
+			fd, ok := d.(*ast.FuncDecl)
+			if !ok || fd.Body == nil {
+				continue
+			}
+			recv := ""
+			if fd.Recv != nil && len(fd.Recv.List) == 1 && len(fd.Recv.List[0].Names) == 1 {
+				recv = fd.Recv.List[0].Names[0].Name
+			}
+			ast.Inspect(fd.Body, func(n ast.Node) bool {
+				sel, ok := n.(*ast.SelectorExpr)
+				if !ok {
+					return true
+				}
+				if id, isId := sel.X.(*ast.Ident); isId && recv != "" && id.Name == recv {
+					calls[fd.Name.Name] = append(calls[fd.Name.Name], sel.Sel.Name) // call or method value: both count
+				}
+				if wholeSetModelOps[sel.Sel.Name] {
+					rt := confExprText(fset, src, sel.X)
+					if strings.Contains(strings.ToLower(rt), "model") {
+						wholeFound[fmt.Sprintf("%s|%s|%s|%s", name, fd.Name.Name, sel.Sel.Name, rt)] = true
+						wholeIn[fd.Name.Name] = append(wholeIn[fd.Name.Name], rt+"."+sel.Sel.Name)
+					}
+				}
+				return true
+			})
+		}
+	}
+	wkeys := make([]string, 0, len(wholeFound))
+	for k := range wholeFound {
+		wkeys = append(wkeys, k)
+	}
+	sort.Strings(wkeys)
+	for _, k := range wkeys {
+		_, ok := reviewedWholeSetCalls[k]
+		c.Op("wholesetcall "+strings.ReplaceAll(k, " ", "_"), b2s(ok))
+		c.Stat("whole-set model operation call site (kirkpatrick)")
+		c.Nontrivial(k)
+		if !ok {
+			c.Fail("structural:histories-are-conformant", "conformance:unreviewed-whole-set-model-call",
+				"the single-objective explorer calls a whole-set operation of its model from a site that is not on the reviewed list: "+k+
+					" — called while a proposal is pending it breaks the conformant-history hypothesis of the catchment theorems; review it and add it to reviewedWholeSetCalls in harness/cmd/suite_conformance.go", []string{"wholesetcall " + k})
+		}
+	}
+	for k := range reviewedWholeSetCalls {
+		if !wholeFound[k] {
+			c.Op("wholesetcall-missing "+strings.ReplaceAll(k, " ", "_"), "0")
+			c.Fail("structural:histories-are-conformant", "conformance:reviewed-call-site-gone",
+				"a reviewed whole-set call site no longer exists (the explorer's initialisation changed; re-review): "+k, []string{"wholesetcall-missing " + k})
+		}
+	}
+	// the proposal window: everything reachable from Explorer.TryRandomChange through the explorer's own methods
+	reach, queue := map[string]bool{"TryRandomChange": true}, []string{"TryRandomChange"}
+	for len(queue) > 0 {
+		fn := queue[0]
+		queue = queue[1:]
+		for _, callee := range calls[fn] {
+			if !reach[callee] {
+				reach[callee] = true
+				queue = append(queue, callee)
+			}
+		}
+	}
+	var offending []string
+	for fn := range reach {
+		for _, w := range wholeIn[fn] {
+			offending = append(offending, fn+" calls "+w)
+		}
+	}
+	sort.Strings(offending)
+	check("no-whole-set-operation-while-a-proposal-is-pending", len(offending) == 0,
+		"reachable from Explorer.TryRandomChange (between the proposal and its accept/revert): "+strings.Join(offending, "; "))
+	c.Stat(fmt.Sprintf("explorer methods reachable from TryRandomChange: %d", len(reach)))
+
 	for name, callee := range map[string]string{"AcceptLastChange": "ke.Model().AcceptChange", "RevertLastChange": "ke.Model().RevertChange"} {
 		if fd := funcs[name]; fd != nil {
 			n := 0
